@@ -252,7 +252,9 @@ def run_history(ctx, world, hist, tofu=True, label="exhaustive"):
         world.redirect_target.clear()
         world.fail_next.clear()
         client = GeminiClient(timeout=8, trust_on_first_use=tofu, tofu_db_path=Path(dbp) if tofu else None)
-        admin = TOFUDatabase(Path(dbp))
+        # administrative operations go through the client's own store object half of the time: state
+        # carried inside that object (connections, caches) must not let a refused certificate through
+        admin = client.tofu_db if (tofu and len(hist) % 2) else TOFUDatabase(Path(dbp))
         model = {}
         outcomes = []
         classes = set()
@@ -377,6 +379,21 @@ def run_history(ctx, world, hist, tofu=True, label="exhaustive"):
                 admin.clear()
                 model.clear()
                 outcomes.append("cleared")
+            elif kind == "import-bad":
+                # an import that fails after a valid entry: nothing may change, now or at the next commit
+                key = key_of(world, op[1])
+                import tomli_w
+
+                f = os.path.join(tmp, "bad.toml")
+                good = {"hostname": key[0], "port": key[1], "fingerprint": P[op[2]].fingerprint, "first_seen": "2020-01-01T00:00:00+00:00", "last_seen": "2020-01-01T00:00:00+00:00"}
+                with open(f, "wb") as fh:
+                    tomli_w.dump({"hosts": {"a": good, "b": {"hostname": "broken.example", "port": 70000, "fingerprint": "sha256:zz", "first_seen": "x", "last_seen": "x"}}}, fh)
+                try:
+                    admin.import_toml(Path(f), merge=(op[3] == "merge"), on_conflict=lambda *a: True)
+                    ctx.undecided("import-bad-did-not-fail")
+                except Exception:
+                    pass
+                outcomes.append("import-failed")
             elif kind == "import":
                 key = key_of(world, op[1])
                 fp = P[op[2]].fingerprint
@@ -414,9 +431,11 @@ ALPHABET = [
     ("get", "t1"), ("upload", "t1"), ("get", "t2"), ("get", "t3"), ("redirect", "t1", "t3"), ("redirect", "t2", "t1"),
     ("swap", "A", "ec2"), ("swap", "A", "tbool"), ("swap", "B", "rsa"), ("trust", "t1"), ("revoke", "t1"), ("import", "t3", "ed"),
     ("getfail", "t1", "close-before-header"),
+    ("import-bad", "t1", "ec2", "replace"),
 ]
 EXTRA = [("get", "t4"), ("upload", "t3"), ("swap", "A", "ed"), ("swap", "A", "rsa"), ("swap", "B", "tver"), ("swap", "A", "ec1"), ("swap", "B", "ec1"), ("clear",),
          ("redirect", "t3", "t4"), ("upload", "t2"), ("import", "t1", "ec2"), ("revoke", "t3"), ("trust", "t3"),
+         ("import-bad", "t1", "ec2", "merge"), ("import-bad", "t3", "rsa", "replace"),
          ("getfail", "t1", "garbage-header"), ("getfail", "t3", "unknown-charset"), ("getfail", "t2", "reset-mid-body"), ("getfail", "t3", "close-before-header")]
 
 
